@@ -143,16 +143,18 @@ def build(ctx: core.Ctx):
     sched, design = runstate_paths(ctx)
     for i, steps in enumerate(sched):
         runs.append(_run(f"rs-{i}", "rs", M0, steps))
-    nrnd = 600 if ctx.quick else 8000
+    nrnd = 600 if ctx.quick else 3000
     for i in range(nrnd):
         method = rnd.choice(METHOD_POOL)
         runs.append(_run(f"rnd-{i}", "rnd", method, random_schedule(rnd, rnd.randint(15, 45))))
     from .gen import programs
-    progs = programs.CURATED * (2 if ctx.quick else 10) + programs.enumerated(ctx.quick, ctx.seed) + \
-        programs.random_programs(300 if ctx.quick else 6000, ctx.seed)
+    # The set of programs does not depend on VERIF_SEED (the seed drives schedules, trajectories and request points):
+    # quick = a fixed sample, thorough = a larger fixed sample of the same generators.
+    progs = programs.CURATED * (2 if ctx.quick else 4) + programs.enumerated(ctx.quick, 1) + \
+        programs.random_programs(300 if ctx.quick else 1500, 1)
     variants = ["plain", "plain", "pausehold", "cancelforce", "inject", "edit", "stoprestart"]
     for i, method in enumerate(progs):
-        for j in range(1 if ctx.quick else 3):
+        for j in range(1 if ctx.quick else 2):
             variant = variants[(i + j) % len(variants)]
             runs.append(dict(_run(f"prog-{i}-{j}", "prog", method, program_schedules(rnd, 40, variant)), variant=variant))
     for i, method in enumerate(programs.CURATED):          # the curated shapes also with the two deterministic trajectories
